@@ -1,10 +1,535 @@
-//! End-of-history and relational oracles (C08, C11, C12, C13, ...).
+//! Relational, end-of-history and shadow-twin oracles: C06 (bogus twin), C08, C11, C12, C13, C20, C21, C22.
+use crate::analysis::Analysis;
+use crate::interp::{self, Limits};
 use crate::monitors::{class, knowledge, new_data_class, Mon};
-use crate::rngx::Rng;
+use crate::rngx::{mix3, Rng};
 use crate::world::World;
-use std::collections::BTreeMap;
+use air_interpreter_data::*;
+use std::collections::{BTreeMap, BTreeSet};
 
-pub fn c08(m: &mut Mon, w: &mut World, rng: &mut Rng) {
-    let _ = (class(0), new_data_class(0));
-    let _ = (m, w, rng, knowledge, BTreeMap::<u8, u8>::new());
+fn hash64(s: &str) -> u64 {
+    crate::rngx::str_hash(s)
+}
+fn run_rng(w: &World, eid: u32, tag: u64) -> Rng {
+    Rng::new(mix3(w.sc.seed ^ w.sc.hist.rotate_left(17), eid as u64, tag))
+}
+
+pub fn erased_trace(d: &InterpreterData) -> Vec<String> {
+    d.trace
+        .iter()
+        .map(|s| match s {
+            ExecutedState::Call(CallResult::RequestSentBy(_)) => "call:sent".to_string(),
+            ExecutedState::Canon(CanonResult::RequestSentBy(_)) => "canon:sent".to_string(),
+            x => format!("{x}"),
+        })
+        .collect()
+}
+
+fn outcome_json(o: &interp::Outcome) -> serde_json::Value {
+    let dj = if o.data.is_empty() {
+        serde_json::Value::Null
+    } else {
+        match interp::decode(&o.data) {
+            Ok(d) => interp::data_json(&d.data),
+            Err(e) => serde_json::Value::String(format!("undecodable: {e}")),
+        }
+    };
+    serde_json::json!({"code": o.code, "msg": o.msg, "data": dj, "next": o.next, "reqs": format!("{:?}", o.reqs), "panic": o.panic})
+}
+
+// ---------------- C20: in-process re-execution (different per-map hash keys) ----------------
+pub fn c20(m: &mut Mon, w: &mut World, idx: usize) {
+    let (peer, prev, cur, results, script, particle) = {
+        let r = &w.runs[idx];
+        (r.peer, r.prev.clone(), r.cur.clone(), r.results.clone(), r.script.clone(), r.particle.clone())
+    };
+    let lim = w.limits_of(peer);
+    let a = outcome_json(&w.runs[idx].out);
+    // every re-execution builds its hash maps with fresh keys; a replay tries more of them
+    let tries = if std::env::var("VERIF_REPLAYING").is_ok() { 24 } else { 2 };
+    let mut b = a.clone();
+    for _ in 0..tries {
+        let o2 = w.shadow_ex(peer, &prev, &cur, &results, Some(&lim), Some(&script), Some(&particle));
+        b = outcome_json(&o2);
+        if a != b {
+            break;
+        }
+    }
+    if a != b {
+        let mut what = vec![];
+        for k in ["code", "msg", "data", "next", "reqs", "panic"] {
+            if a[k] != b[k] {
+                what.push(format!("{k}: {} VS {}", a[k].to_string().chars().take(300).collect::<String>(), b[k].to_string().chars().take(300).collect::<String>()));
+            }
+        }
+        let d = format!("peer {peer} eid {}: re-execution on identical inputs differs in {}", w.runs[idx].eid, what.join(" ; "));
+        // classify: only the message differs, and only in printed memory addresses
+        let only_msg = ["code", "data", "next", "reqs", "panic"].iter().all(|k| a[*k] == b[*k]);
+        let masked_equal = crate::monitors::mask_addresses(a["msg"].as_str().unwrap_or("")) == crate::monitors::mask_addresses(b["msg"].as_str().unwrap_or(""));
+        let both_cid_store = a["code"].as_i64() == Some(crate::monitors::CID_STORE_VERIFICATION_CODE);
+        let tag = if only_msg && masked_equal {
+            "message-contains-memory-addresses"
+        } else if only_msg && both_cid_store {
+            "which-cid-store-error-is-reported"
+        } else {
+            "reexecution-differs"
+        };
+        let src = if a["msg"].as_str().unwrap_or("").contains("ArchiveError") { " [address source: rkyv ArchiveError]" } else { " [address source: other]" };
+        let d = if tag == "message-contains-memory-addresses" { format!("{d}{src}") } else { d };
+        m.report(w, Some(idx), "C20", tag, d);
+    } else if w.runs[idx].out.reqs.len() + w.runs[idx].out.next.len() >= 2 || class(w.runs[idx].out.code) == 'F' {
+        m.nontrivial.insert(hash64(&a.to_string()));
+    }
+}
+
+// ---------------- C06: bogus ids against a twin without them ----------------
+pub fn c06_bogus(m: &mut Mon, w: &mut World, idx: usize) {
+    let (peer, prev, cur, results, bogus, code) = {
+        let r = &w.runs[idx];
+        (r.peer, r.prev.clone(), r.cur.clone(), r.results.clone(), r.bogus.clone(), r.out.code)
+    };
+    if bogus.is_empty() {
+        return;
+    }
+    let mut twin_res = results.clone();
+    for b in &bogus {
+        twin_res.remove(b);
+    }
+    let lim = w.limits_of(peer);
+    let t = w.shadow_ex(peer, &prev, &cur, &twin_res, Some(&lim), None, None);
+    let r = &w.runs[idx];
+    let same = |a: &interp::Outcome, b: &interp::Outcome| -> bool {
+        interp::dec(&a.data).trace == interp::dec(&b.data).trace && a.reqs == b.reqs && a.next == b.next
+    };
+    let eid = r.eid;
+    match class(t.code) {
+        '0' => {
+            if code != 30000 {
+                let d = format!("peer {peer} eid {eid}: results under ids {bogus:?} match no pending call; twin without them returns 0, real run returns {code} ({})", r.out.msg.chars().take(200).collect::<String>());
+                m.report(w, Some(idx), "C06", "bogus-not-reported", d);
+                return;
+            }
+            if !same(&r.out, &t) {
+                let d = format!(
+                    "peer {peer} eid {eid}: bogus ids {bogus:?} changed the outcome\nreal: {}\ntwin: {}",
+                    interp::show_trace(&interp::dec(&r.out.data)),
+                    interp::show_trace(&interp::dec(&t.data))
+                );
+                m.report(w, Some(idx), "C06", "bogus-had-effect", d);
+                return;
+            }
+            for b in &bogus {
+                if !r.out.msg.contains(b.as_str()) {
+                    let d = format!("peer {peer} eid {eid}: bogus id {b} not named among the unprocessed results: {}", r.out.msg.chars().take(300).collect::<String>());
+                    m.report(w, Some(idx), "C06", "bogus-silently-dropped", d);
+                    return;
+                }
+            }
+            m.nontrivial.insert(hash64(&format!("bogus{peer}{bogus:?}{}", r.prev.len())));
+        }
+        'C' => {
+            if code != t.code || !same(&r.out, &t) {
+                let d = format!("peer {peer} eid {eid}: twin ends with catchable {} but real run gives {code} or a different outcome", t.code);
+                m.report(w, Some(idx), "C06", "bogus-had-effect", d);
+            }
+        }
+        _ => {}
+    }
+}
+
+// ---------------- C08 ----------------
+pub fn c08(m: &mut Mon, w: &mut World, _rng: &mut Rng) {
+    if w.sc.profile != "honest" && w.sc.profile != "lossy" {
+        return;
+    }
+    if w.runs.iter().any(|r| r.out.panic.is_some() || matches!(class(r.out.code), 'P' | 'U')) {
+        return; // C04's business
+    }
+    let mut rng = run_rng(w, 0, 0xC08);
+    let mut blobs: Vec<Vec<u8>> = (0..w.sc.np).map(|p| (*w.peers[p].store).clone()).filter(|b| !b.is_empty()).collect();
+    let inter: Vec<usize> = (0..w.runs.len()).filter(|i| w.runs[*i].stored && new_data_class(w.runs[*i].out.code) && !w.runs[*i].out.data.is_empty()).collect();
+    for _ in 0..4 {
+        if !inter.is_empty() && blobs.len() < 8 {
+            let i = inter[rng.below(inter.len())];
+            let b = w.runs[i].out.data.clone();
+            if !blobs.contains(&b) {
+                blobs.push(b);
+            }
+        }
+    }
+    if blobs.len() < 2 {
+        return;
+    }
+    let empty = BTreeMap::new();
+    let obs = w.obs();
+    let has_streams = w.sc.script.contains('$') || w.sc.script.contains("%m") || w.sc.script.contains("#");
+    let mut merge_all = |w: &mut World, at: usize, order: &[usize], start: Vec<u8>| -> Result<Vec<u8>, String> {
+        let mut acc = start;
+        for &i in order {
+            let o = w.shadow(at, &acc, &blobs[i], &empty);
+            if o.panic.is_some() || !new_data_class(o.code) {
+                return Err(format!(
+                    "merge step failed: code {} {}\nacc: {}\nblob: {}",
+                    o.code,
+                    o.msg.chars().take(400).collect::<String>(),
+                    interp::show_trace(&interp::dec(&acc)),
+                    interp::show_trace(&interp::dec(&blobs[i]))
+                ));
+            }
+            acc = o.data;
+        }
+        Ok(acc)
+    };
+    let mut results: Vec<(String, BTreeMap<String, usize>, Vec<String>)> = vec![];
+    let n = blobs.len();
+    for perm in 0..3 {
+        let mut order: Vec<usize> = (0..n).collect();
+        if perm > 0 {
+            rng.shuffle(&mut order);
+        }
+        match merge_all(w, obs, &order, vec![]) {
+            Ok(acc) => {
+                let d = interp::dec(&acc);
+                results.push((format!("perm{order:?}"), knowledge(&d), erased_trace(&d)));
+            }
+            Err(e) => {
+                m.report(w, None, "C08", "merge-failed", format!("order {order:?}: {e}"));
+                return;
+            }
+        }
+    }
+    // two-level grouping: two observers merge halves, then a third merges both
+    {
+        let mut order: Vec<usize> = (0..n).collect();
+        rng.shuffle(&mut order);
+        let cut = 1 + rng.below(n - 1);
+        let a = merge_all(w, obs, &order[..cut], vec![]);
+        let b = merge_all(w, obs + 1, &order[cut..], vec![]);
+        match (a, b) {
+            (Ok(a), Ok(b)) => {
+                let o1 = w.shadow(obs + 2, &[], &a, &empty);
+                let o2 = if new_data_class(o1.code) { Some(w.shadow(obs + 2, &o1.data, &b, &empty)) } else { None };
+                match o2 {
+                    Some(o2) if new_data_class(o2.code) && o2.panic.is_none() => {
+                        let d = interp::dec(&o2.data);
+                        results.push((format!("grouped{order:?}/{cut}"), knowledge(&d), erased_trace(&d)));
+                    }
+                    _ => {
+                        m.report(w, None, "C08", "merge-failed", format!("grouped merge {order:?} cut {cut} failed at the top level: {}", o1.msg));
+                        return;
+                    }
+                }
+            }
+            (Err(e), _) | (_, Err(e)) => {
+                m.report(w, None, "C08", "merge-failed", format!("grouped {order:?}/{cut}: {e}"));
+                return;
+            }
+        }
+    }
+    let (n0, k0, t0) = results[0].clone();
+    for (nm, k, t) in results.iter().skip(1) {
+        if *k != k0 {
+            let diff: Vec<String> = k0.keys().chain(k.keys()).filter(|c| k0.get(*c) != k.get(*c)).cloned().collect::<BTreeSet<_>>().into_iter().collect();
+            let d = format!("knowledge differs between {n0} and {nm}: {diff:?}\nA: {t0:?}\nB: {t:?}\nscript: {}", w.sc.script);
+            m.report(w, None, "C08", "knowledge-differs", d);
+            return;
+        }
+        if !has_streams && *t != t0 {
+            let d = format!("stream-free script: merged traces differ between {n0} and {nm}\nA: {t0:?}\nB: {t:?}\nscript: {}", w.sc.script);
+            m.report(w, None, "C08", "trace-differs", d);
+            return;
+        }
+    }
+    // at one participating peer: merging everything else must not fail and must not know less
+    let p = rng.below(w.sc.np);
+    let order: Vec<usize> = (0..n).collect();
+    let start = (*w.peers[p].store).clone();
+    match merge_all(w, p, &order, start) {
+        Ok(acc) => {
+            let kp = knowledge(&interp::dec(&acc));
+            for (c, cnt) in &k0 {
+                if c.starts_with('C') {
+                    continue;
+                }
+                if kp.get(c).cloned().unwrap_or(0) < *cnt {
+                    let d = format!("participant {p} merging all data knows less than the observer: missing {c}");
+                    m.report(w, None, "C08", "knowledge-differs", d);
+                    return;
+                }
+            }
+        }
+        Err(e) => {
+            m.report(w, None, "C08", "merge-failed", format!("at participant {p}: {e}"));
+            return;
+        }
+    }
+    if k0.len() >= 2 && n >= 3 {
+        m.nontrivial.insert(hash64(&format!("{:?}{n}", k0.keys().collect::<Vec<_>>())));
+    }
+}
+
+// ---------------- C12 ----------------
+/// (generation, cid) of call-produced values per single-instance stream
+fn stream_entries(an: &Analysis, d: &InterpreterData) -> BTreeMap<String, Vec<(u32, String)>> {
+    let mut out: BTreeMap<String, Vec<(u32, String)>> = BTreeMap::new();
+    for s in d.trace.iter() {
+        if let ExecutedState::Call(CallResult::Executed(ValueRef::Stream { cid, generation })) = s {
+            if let Some(agg) = d.cid_info.service_result_store.get(cid) {
+                if let Some(t) = d.cid_info.tetraplet_store.get(&agg.tetraplet_cid) {
+                    if let Some(c) = an.calls.get(&t.function_name) {
+                        if let Some(st) = &c.out_stream {
+                            if an.single_instance_streams.contains(st) {
+                                let g: usize = (*generation).into();
+                                out.entry(st.clone()).or_default().push((g as u32, cid.get_inner().to_string()));
+                            }
+                        }
+                    }
+                }
+            }
+        }
+    }
+    out
+}
+pub fn c12(m: &mut Mon, w: &mut World, idx: usize) {
+    let an = m.analysis.clone();
+    let r = &w.runs[idx];
+    let a = stream_entries(&an, &interp::dec(&r.prev));
+    let b = stream_entries(&an, &interp::dec(&r.cur));
+    let c = stream_entries(&an, &m.decoded(w, idx));
+    let mut fail: Option<String> = None;
+    let mut nontrivial = false;
+    for (st, cv) in &c {
+        let gc: BTreeMap<&String, u32> = cv.iter().map(|(g, c)| (c, *g)).collect();
+        if gc.len() != cv.len() {
+            continue; // duplicated content ids (cannot be stated per value)
+        }
+        let av = a.get(st).cloned().unwrap_or_default();
+        let bv = b.get(st).cloned().unwrap_or_default();
+        let ga: BTreeMap<&String, u32> = av.iter().map(|(g, c)| (c, *g)).collect();
+        let gb: BTreeMap<&String, u32> = bv.iter().map(|(g, c)| (c, *g)).collect();
+        // 1. no inversion among values already in the previous data
+        for (x, gx) in &ga {
+            for (y, gy) in &ga {
+                if gx < gy {
+                    if let (Some(ox), Some(oy)) = (gc.get(x), gc.get(y)) {
+                        if ox > oy {
+                            fail = Some(format!("stream {st}: values {x} (gen {gx}) and {y} (gen {gy}) of the previous data are inverted in the output (gens {ox} > {oy})"));
+                        }
+                    }
+                }
+            }
+        }
+        // 2. prev values before values that came only with the current data, those before new ones
+        for (x, _) in &ga {
+            for (y, _) in &gb {
+                if ga.contains_key(y) {
+                    continue;
+                }
+                if let (Some(ox), Some(oy)) = (gc.get(x), gc.get(y)) {
+                    nontrivial = true;
+                    if ox > oy {
+                        fail = Some(format!("stream {st}: value {y} that came only with the current data (gen {oy}) is numbered before previous-data value {x} (gen {ox})"));
+                    }
+                }
+            }
+        }
+        for (z, oz) in &gc {
+            if ga.contains_key(z) || gb.contains_key(z) {
+                continue;
+            }
+            for (y, oy) in &gc {
+                if (ga.contains_key(y) || gb.contains_key(y)) && oy > oz {
+                    fail = Some(format!("stream {st}: value {z} produced in this run (gen {oz}) is numbered before merged value {y} (gen {oy})"));
+                }
+            }
+        }
+    }
+    if let Some(f) = fail {
+        let r = &w.runs[idx];
+        let d = format!(
+            "peer {} eid {}: {f}\nprev: {}\ncur: {}\nout: {}",
+            r.peer,
+            r.eid,
+            interp::show_trace(&interp::dec(&r.prev)),
+            interp::show_trace(&interp::dec(&r.cur)),
+            interp::show_trace(&m.decoded(w, idx))
+        );
+        m.report(w, Some(idx), "C12", "generation-order", d);
+    } else if nontrivial {
+        m.nontrivial.insert(hash64(&format!("{:?}", c)));
+    }
+}
+
+// ---------------- C21 ----------------
+fn parse_ver(v: &semver::Version) -> (u64, u64, u64, bool) {
+    (v.major, v.minor, v.patch, !v.pre.is_empty())
+}
+/// independent precedence comparison: true iff a < b (build metadata ignored; a pre-release precedes its release)
+fn ver_lt(a: &semver::Version, b: &semver::Version) -> bool {
+    let (a1, a2, a3, apre) = parse_ver(a);
+    let (b1, b2, b3, bpre) = parse_ver(b);
+    if (a1, a2, a3) != (b1, b2, b3) {
+        return (a1, a2, a3) < (b1, b2, b3);
+    }
+    if apre && !bpre {
+        return true;
+    }
+    if apre && bpre {
+        return a.pre < b.pre;
+    }
+    false
+}
+pub fn c21(m: &mut Mon, w: &mut World, idx: usize) {
+    let r = &w.runs[idx];
+    let is_ver_err = r.out.msg.contains("version of interpreter, but minimum");
+    if r.cur.is_empty() {
+        // empty current data is treated as empty data: never a version or decoding error
+        if is_ver_err || r.out.msg.contains("deserialize") && class(r.out.code) == 'P' && !r.results.is_empty() && false {
+            let d = format!("peer {} eid {}: empty current data rejected: {}", r.peer, r.eid, r.out.msg);
+            m.report(w, Some(idx), "C21", "empty-current-rejected", d);
+        }
+        return;
+    }
+    let Ok(env) = InterpreterDataEnvelope::try_from_slice(&r.cur) else { return };
+    let v = env.versions.interpreter_version.clone();
+    let min = air::min_supported_version().clone();
+    let expect_reject = ver_lt(&v, &min);
+    let eid = r.eid;
+    let peer = r.peer;
+    if expect_reject {
+        if !is_ver_err || class(r.out.code) != 'P' {
+            let d = format!("peer {peer} eid {eid}: current data stamped {v} (< minimum {min}) was not rejected as unsupported: code {} {}", r.out.code, r.out.msg.chars().take(200).collect::<String>());
+            m.report(w, Some(idx), "C21", "old-version-accepted", d);
+            return;
+        }
+        if r.out.data != **r.prev || !r.out.next.is_empty() || !r.out.reqs.is_empty() {
+            let d = format!("peer {peer} eid {eid}: version rejection did not return the previous data untouched");
+            m.report(w, Some(idx), "C21", "reject-not-clean", d);
+            return;
+        }
+        m.nontrivial.insert(hash64(&format!("rej{v}")));
+    } else {
+        if is_ver_err {
+            let d = format!("peer {peer} eid {eid}: current data stamped {v} (>= minimum {min}) was rejected for its version: {}", r.out.msg);
+            m.report(w, Some(idx), "C21", "supported-version-rejected", d);
+            return;
+        }
+        m.nontrivial.insert(hash64(&format!("acc{v}")));
+    }
+}
+
+// ---------------- C22 ----------------
+fn size_kinds(msg: &str) -> Option<&'static str> {
+    if msg.contains("air size:") {
+        Some("air")
+    } else if msg.contains("particle size:") {
+        Some("particle")
+    } else if msg.contains("Call result size") {
+        Some("call_result")
+    } else {
+        None
+    }
+}
+fn check_limits_case(m: &mut Mon, w: &mut World, idx: usize, lim: &Limits, real: Option<&interp::Outcome>, twin: &interp::Outcome) -> bool {
+    let (peer, prev, cur, results, script) = {
+        let r = &w.runs[idx];
+        (r.peer, r.prev.clone(), r.cur.clone(), r.results.clone(), r.script.clone())
+    };
+    let o = match real {
+        Some(o) => o.clone(),
+        None => w.shadow_ex(peer, &prev, &cur, &results, Some(lim), None, None),
+    };
+    let air_over = script.len() as u64 > lim.air;
+    let part_over = cur.len() as u64 > lim.particle;
+    let cr_over = results.values().any(|r| r.1.len() as u64 > lim.call_result);
+    let eid = w.runs[idx].eid;
+    let ctx = format!("peer {peer} eid {eid} limits {lim:?} sizes air={} particle={} results={:?}", script.len(), cur.len(), results.values().map(|r| r.1.len()).collect::<Vec<_>>());
+    if lim.hard && (air_over || part_over || cr_over) {
+        let kind = size_kinds(&o.msg);
+        let ok_kind = match kind {
+            Some("air") => air_over,
+            Some("particle") => part_over,
+            Some("call_result") => cr_over,
+            _ => false,
+        };
+        if class(o.code) != 'P' || !ok_kind {
+            m.report(w, Some(idx), "C22", "hard-limit-not-enforced", format!("{ctx}: expected a matching size error, got code {} {}", o.code, o.msg.chars().take(200).collect::<String>()));
+            return false;
+        }
+        if o.data != *prev || !o.next.is_empty() || !o.reqs.is_empty() {
+            m.report(w, Some(idx), "C22", "hard-reject-not-clean", format!("{ctx}: rejection did not return the previous data untouched"));
+            return false;
+        }
+        m.nontrivial.insert(hash64(&format!("hard{kind:?}{air_over}{part_over}{cr_over}")));
+        return true;
+    }
+    // soft mode, or hard mode with nothing exceeded: exact flags, otherwise identical to the unlimited twin
+    let expect_flags = if lim.hard { (false, false, false) } else { (air_over, part_over, cr_over) };
+    if size_kinds(&o.msg).is_some() && class(o.code) == 'P' {
+        m.report(w, Some(idx), "C22", "limit-triggered-wrongly", format!("{ctx}: rejected with {} although no hard limit is exceeded", o.msg.chars().take(200).collect::<String>()));
+        return false;
+    }
+    if o.flags != expect_flags {
+        m.report(w, Some(idx), "C22", "wrong-flags", format!("{ctx}: flags {:?} expected {:?}", o.flags, expect_flags));
+        return false;
+    }
+    let a = outcome_json(&o);
+    let b = outcome_json(twin);
+    if a != b {
+        m.report(w, Some(idx), "C22", "soft-mode-changed-behaviour", format!("{ctx}: outcome differs from the unlimited run: code {} vs {}", o.code, twin.code));
+        return false;
+    }
+    m.nontrivial.insert(hash64(&format!("soft{:?}{}", expect_flags, lim.hard)));
+    true
+}
+pub fn c22(m: &mut Mon, w: &mut World, idx: usize) {
+    let (peer, prev, cur, results, script_len) = {
+        let r = &w.runs[idx];
+        (r.peer, r.prev.clone(), r.cur.clone(), r.results.clone(), r.script.len() as u64)
+    };
+    // unlimited twin of the real run
+    let twin = w.shadow_ex(peer, &prev, &cur, &results, Some(&Limits::default()), None, None);
+    let real = w.runs[idx].out.clone();
+    let lim = w.limits_of(peer);
+    if !check_limits_case(m, w, idx, &lim, Some(&real), &twin) {
+        return;
+    }
+    // boundary configurations around the sizes that actually flow
+    let mut rng = run_rng(w, w.runs[idx].eid, 0xC22);
+    let max_res = results.values().map(|r| r.1.len() as u64).max();
+    for _ in 0..3 {
+        let mut l = Limits::default();
+        l.hard = rng.chance(50);
+        let pick = |rng: &mut Rng, size: u64| -> u64 {
+            match rng.below(6) {
+                0 => 0,
+                1 => size.saturating_sub(1),
+                2 => size,
+                3 => size + 1,
+                4 => size * 2,
+                _ => u64::MAX,
+            }
+        };
+        match rng.below(4) {
+            0 => l.air = pick(&mut rng, script_len),
+            1 => l.particle = pick(&mut rng, cur.len() as u64),
+            2 => {
+                if let Some(mr) = max_res {
+                    l.call_result = pick(&mut rng, mr)
+                } else {
+                    l.particle = pick(&mut rng, cur.len() as u64)
+                }
+            }
+            _ => {
+                l.air = pick(&mut rng, script_len);
+                l.particle = pick(&mut rng, cur.len() as u64);
+                if let Some(mr) = max_res {
+                    l.call_result = pick(&mut rng, mr);
+                }
+            }
+        }
+        if !check_limits_case(m, w, idx, &l, None, &twin) {
+            return;
+        }
+    }
 }
